@@ -35,6 +35,8 @@ class Scale:
         self.ci = repo.cls(FX, "LinCombFxp")
         self.seen = set()
         self.n_obl = 0
+        self.active = []       # helper functions being analysed in a calling context
+        self.rets = []         # their return values
 
     # ---- reporting
     def ok(self, fi, node, term, ctx):
@@ -153,6 +155,11 @@ class Scale:
             return (wire, None)
         if isinstance(n.op, ast.Mult):
             return (wire, le + re_)
+        if isinstance(n.op, ast.Div) and wire == "LC":
+            # `/` on a wire is EXACT field division (it raises, or - with checks off - returns x*inv(c) mod p): never a floor
+            self.n_obl += 1
+            self.bad(fi, n, "%s: true division of a representation" % norm(n)[:70], "rescaling must use floor division (//): `/` on a "
+                     "secret is exact division, which is not floor(a*b/2^r) resp. floor(a*2^r/b) whenever a remainder exists", ctx)
         if isinstance(n.op, (ast.FloorDiv, ast.Div)):
             return (wire if not isinstance(n.op, ast.Div) or wire == "LC" else "float", le - re_)
         if isinstance(n.op, ast.Mod):
@@ -243,6 +250,31 @@ class Scale:
             return ("bool", 0)
         if short == "bool":
             return ("bool", 0)
+        # helpers of the fixed-point module itself (not one of the modelled primitives): analysed in the calling context
+        callee = None
+        if isinstance(n.func, ast.Attribute) and isinstance(n.func.value, ast.Name) and n.func.value.id in ("self", "cls", self.ci.name):
+            callee = self.ci.methods.get(n.func.attr)
+        elif isinstance(n.func, ast.Name):
+            b = self.repo.module(FX).bindings.get(n.func.id)
+            callee = b[1] if b and b[0] == "def" else None
+        if callee is not None and callee.fq not in self.active and len(self.active) < 4 and not n.keywords:
+            ps = [p_ for p_ in callee.params if p_ not in ("self", "cls")]
+            if len(ps) == len(args):
+                env2 = dict(zip(ps, args))
+                if callee.params and callee.params[0] == "self":
+                    env2["self"] = ("LCF", 1)
+                self.active.append(callee.fq)
+                self.rets.append([])
+                try:
+                    self.run(callee.body, env2, callee, ctx + " via " + fi.name)
+                except Stop:
+                    pass
+                vals = self.rets.pop()
+                self.active.pop()
+                if vals and all(v == vals[0] for v in vals):
+                    return vals[0]
+                if vals and all(v[0] == vals[0][0] for v in vals):
+                    return (vals[0][0], vals[0][1] if all(v[1] == vals[0][1] for v in vals) else None)
         return ("unknown", None)
 
     # ---- statements
@@ -332,9 +364,27 @@ class Scale:
                             self.bad(fi, s, term, "a fixed-point object must store the number times 2^r", ctx)
             elif isinstance(s, ast.AugAssign):
                 self.ex(s.value, env, fi, ctx)
+            elif isinstance(s, ast.Try):
+                envs = []
+                for blk in [s.body + s.orelse] + [h.body for h in s.handlers]:
+                    e1 = dict(env)
+                    try:
+                        self.run(blk, e1, fi, ctx)
+                        envs.append(e1)
+                    except Stop:
+                        pass
+                if not envs:
+                    raise Stop()
+                for k in set().union(*envs):
+                    vals = [e.get(k) for e in envs]
+                    env[k] = vals[0] if all(v == vals[0] for v in vals) else ("unknown", None)
+                if s.finalbody:
+                    self.run(s.finalbody, env, fi, ctx)
             elif isinstance(s, ast.Return):
                 if s.value is not None:
                     val = self.ex(s.value, env, fi, ctx)
+                    if self.rets:
+                        self.rets[-1].append(val)
                     if fi.name == "remove_scaling":
                         self.n_obl += 1
                         term = "remove_scaling returns exponent %s" % (val[1],)
@@ -531,6 +581,53 @@ def config_read_at_call_time(repo, rule, modname, setting, what):
     return n_uses
 
 
+def rule_integer_side(repo, rule):
+    """The integer-secret class never applies its own (unscaled) arithmetic to a fixed-point operand:
+       * its operand conversions (_ensurelc, LinCombBool._ensurebool) reject a LinCombFxp instead of taking its scaled `.lc`;
+       * comparison operators that add an integer step (the literal 1 of a strict comparison) return NotImplemented for a
+         LinCombFxp operand, so that the fixed-point class compares at its own scale (or they raise)."""
+    from ..efftree import always_raises
+    it = get_interp(repo)
+    lc = repo.cls("pysnark.runtime", "LinComb")
+    lb = repo.cls("pysnark.boolean", "LinCombBool")
+    for ci, mn in ((lc, "_ensurelc"), (lb, "_ensurebool")):
+        fi = ci.methods.get(mn)
+        if fi is None:
+            raise AnalysisError("%s.%s not found" % (ci.name, mn))
+        args = [V("cls"), V("LCF")] if fi.params and fi.params[0] in ("cls", "self") else [V("LCF")]
+        tree, ret = it.analyze(fi, args, {}, None, None)
+        if always_raises(tree):
+            rule.ok(fi.loc(), fi.fq, "%s(<LinCombFxp>) raises" % mn, "a fixed-point operand is rejected, not reinterpreted")
+        else:
+            rule.violation(fi.loc(), fi.fq, "%s(<LinCombFxp>) may return kinds %s" % (mn, sorted(ret.kind) if ret is not None else None),
+                           "the integer-side conversion accepts a fixed-point value: its representation v*2^r is then used as the "
+                           "integer v (e.g. PrivVal(3).assert_lt(PrivValFxp(2.0)) checks 3 < 2*2^r)", "intside/%s" % mn)
+    for mn in ("__lt__", "__le__", "__gt__", "__ge__"):
+        fi = lc.methods.get(mn)
+        if fi is None:
+            raise AnalysisError("LinComb.%s not found" % mn)
+        step = False
+        for r in ast.walk(fi.node):
+            if isinstance(r, ast.Return) and r.value is not None:
+                for b in ast.walk(r.value):
+                    if isinstance(b, ast.BinOp) and isinstance(b.op, (ast.Add, ast.Sub)) and any(
+                            isinstance(x, ast.Constant) and isinstance(x.value, int) and not isinstance(x.value, bool) and x.value != 0
+                            for x in (b.left, b.right)):
+                        step = True
+        tree, ret = it.analyze(fi, [V("LC"), V("LCF")], {}, None, None)
+        defers = always_raises(tree) or (ret is not None and ret.kind <= frozenset(["NotImpl", "never"]))
+        if not step:
+            rule.ok(fi.loc(), fi.fq, "%s: no integer step in the compared difference" % mn, "scale-free for a fixed-point operand")
+        elif defers:
+            rule.ok(fi.loc(), fi.fq, "%s(<LinComb>, <LinCombFxp>) -> NotImplemented / raises" % mn,
+                    "the fixed-point class performs the comparison at its own scale (step 2^-r)")
+        else:
+            rule.violation(fi.loc(), fi.fq, "%s adds an integer step and handles a LinCombFxp operand itself (result kinds %s)" % (
+                mn, sorted(ret.kind) if ret is not None else None),
+                "strict comparison between an integer secret and a fixed-point value subtracts 1.0 instead of the smallest "
+                "representable step: PrivVal(3) < PrivValFxp(3.5) yields 0", "intside/cmp/%s" % mn)
+
+
 def check(repo, rep, tier):
     rep.explanation = ("A units analysis: every method of LinCombFxp is abstractly executed once per combination of operand "
                        "kinds (int, float, LinComb, LinCombBool, LinCombFxp; isinstance tests resolved from the kind) with each "
@@ -538,13 +635,12 @@ def check(repo, rep, tier):
                        "read-back are the obligations.  Deference of the integer class and the reflected operators are checked "
                        "with the operator-dispatch model.")
     rep.trusted = ["exponent algebra: products add, quotients subtract, divmod(a,b) -> (a-b, a)"]
-    rep.not_decided = ["numeric agreement with exact scaled-integer arithmetic for all operands (rounding direction, negatives)",
-                       "the int-vs-fixed-point strict comparison defect named in the property: LinComb.__lt__ computes "
-                       "other - self - 1 with consistent exponents; the literal 1 means one integer step but is scaled as 1.0 - "
-                       "a value-semantic error without a structural signature"]
+    rep.not_decided = ["numeric agreement with exact scaled-integer arithmetic for all operands (rounding direction, negatives)"]
     r1 = rep.rule("R-C14-1", "scale exponents are consistent at every constructor, sum, comparison and conversion", floor=30)
     rule_scale(repo, r1)
     r2 = rep.rule("R-C14-2", "reflected operators and deference to the fixed-point type", floor=10)
     rule_reflected(repo, r2)
     r3 = rep.rule("R-C14-3", "the resolution is read at call time (holds for every resolution setting)", floor=1)
     config_read_at_call_time(repo, r3, FX, "resolution", "scaling")
+    r4 = rep.rule("R-C14-4", "the integer-secret class rejects or defers fixed-point operands (no unscaled arithmetic on v*2^r)", floor=6)
+    rule_integer_side(repo, r4)
